@@ -134,4 +134,31 @@ def mockOK (cs : CS) (t : Table) : Bool :=
 def mockOKPinned (cs : CS) (t : Table) : Bool :=
   gatesOK cs t && lookupsOKMock cs t && copiesOK cs t
 
+/-! ## `MockProver::verify_at_rows` on caller-chosen rows -/
+
+/-- Gates as `verify_at_rows` checks them: on `gate_row_ids` and on the blinding rows. -/
+def gatesOKAt (cs : CS) (t : Table) (gateRows : List Nat) : Bool :=
+  cs.gates.all fun g => (gateRows ++ blindingRows cs t).all fun r => isZero (g.eval t r)
+
+/-- Additive-selector constraints on `gate_row_ids` and on the blinding rows. -/
+def trashOKAt (cs : CS) (t : Table) (gateRows : List Nat) : Bool :=
+  cs.trash.all fun (q, cons) => cons.all fun c =>
+    (gateRows ++ blindingRows cs t).all fun r => isZero (Val.mul t.p (q.eval t r) (c.eval t r))
+
+/-- Lookups as `verify_at_rows` checks them: inputs only on `lookup_input_row_ids`, the table on
+ALL usable rows, fill-row shortcut on both. -/
+def lookupsOKMockAt (cs : CS) (t : Table) (lookupRows : List Nat) : Bool :=
+  cs.lookups.all fun (inp, tab) =>
+    let fill := tuple tab t ((t.n - (cs.blinding + 1)) - 1)
+    let table := ((usableRows cs t).map (tuple tab t)).filter (· != fill)
+    let inputs := (lookupRows.map (tuple inp t)).filter (· != fill)
+    inputs.all fun i => table.contains i
+
+/-- `MockProver::verify_at_rows(gate_row_ids, lookup_input_row_ids)` (cell-assignment checks
+excluded): the copy constraints are always checked on the whole mapping. `verify()` is
+`verify_at_rows(usable_rows, usable_rows)`; `assert_satisfied[_at_rows]` panics iff the result is
+`Err`. -/
+def mockOKAt (cs : CS) (t : Table) (gateRows lookupRows : List Nat) : Bool :=
+  gatesOKAt cs t gateRows && trashOKAt cs t gateRows && lookupsOKMockAt cs t lookupRows && copiesOK cs t
+
 end MidnightZK.C02
